@@ -226,14 +226,18 @@ def _short(x):
 # ---------------------------------------------------------------------------
 # Hypothesis driver
 # ---------------------------------------------------------------------------
-def run_hypothesis(ctx: Ctx, strategy, oracle, max_examples: int, label: str = "", rounds: int = 3,
-                   shrink: bool = True, shrink_budget: int = 120):
+def run_hypothesis(ctx: Ctx, strategy, oracle, max_examples: int, label: str = "", rounds: int | None = None,
+                   shrink: bool = True, shrink_budget: int | None = None):
     """Drive ``oracle(spec, ctx)`` with Hypothesis.  Failures are shrunk, recorded on ctx
     (de-duplicated by signature), then the search continues with that signature muted so that
     up to ``rounds`` distinct root causes are enumerated."""
     import hypothesis
     from hypothesis import HealthCheck, Phase, given, settings
 
+    if rounds is None:
+        rounds = 2 if ctx.tier == "quick" else 3
+    if shrink_budget is None:
+        shrink_budget = 50 if ctx.tier == "quick" else 150
     muted = set()
     phases = [Phase.explicit, Phase.generate] + ([Phase.shrink] if shrink else [])
     n = max(1, int(max_examples))
